@@ -114,6 +114,7 @@ const (
 	ckAt
 	ckTagged
 	ckDecorator
+	ckDecTagged // a decorator on a tag of i whose argument is `!tagged t` with t carried by j
 )
 
 // mixedGraphConfig: 3 services, kind[i][j] over {none,@,!tagged,decorator-on-tag} for every ordered pair incl. i==j.
@@ -174,6 +175,17 @@ func mixedGraphConfigN(n int, kind func(i, j int) int, sharedNames bool) *cfg.Co
 					si.Tags = append(si.Tags, cfg.Tag{Name: t})
 				}
 				c.Decorators = append(c.Decorators, cfg.Decorator{Tag: t, Decorator: "pa.DecSame", Args: []cfg.Val{cfg.Str("@" + sj.Name)}})
+			case ckDecTagged:
+				// the tag requested by the decorator is requested by nothing else and decorated by nothing
+				t := fmt.Sprintf("e%d-%d", i, j)
+				tj := fmt.Sprintf("m%d-%d", i, j)
+				if !hasTag(si, t) {
+					si.Tags = append(si.Tags, cfg.Tag{Name: t})
+				}
+				if !hasTag(sj, tj) {
+					sj.Tags = append(sj.Tags, cfg.Tag{Name: tj})
+				}
+				c.Decorators = append(c.Decorators, cfg.Decorator{Tag: t, Decorator: "pa.DecSame", Args: []cfg.Val{cfg.Int(int64(i)), cfg.Str("!tagged " + tj)}})
 			}
 		}
 	}
@@ -210,7 +222,7 @@ func addInertParts(r *rand.Rand, c *cfg.Config) {
 }
 
 func checkC07(c *Ctx) error {
-	c.Rule = "(a) all 512 digraphs on 3 parameters incl. self-loops (always); (b) all 512 @-digraphs on 3 services (always); (c) all 4^9 = 262 144 graphs on 3 services where every ordered pair is one of {none, @service, via !tagged, via decorator-on-tag} (thorough: all; quick: seeded sample of 6 000); a third of (c) and (d) also carry inert look-alikes: decorators on `*` and on tags nobody carries, with @service/!tagged arguments; (d) seeded sparse graphs on <=12 parameters and services with overlapping cycles, all edge kinds; a third of them also refer to services/parameters that are not declared and are built with both --ignore-missing-* flags. Each configuration runs through the real binary; the 'Circular dependencies' step must fail iff the reference relation has a cycle (Tarjan SCC), every reported line must be a closed walk of the relation, every element on a cycle must occur in a reported line. Accepted samples are compiled and executed: CircularDeps()==nil and every GetParam returns. distinct = distinct configuration; non-trivial = the relation has at least one edge"
+	c.Rule = "(a) all 512 digraphs on 3 parameters incl. self-loops (always); (b) all 512 @-digraphs on 3 services (always); (c) all 4^9 = 262 144 graphs on 3 services where every ordered pair is one of {none, @service, via !tagged, via decorator-on-tag} (thorough: all; quick: seeded sample of 6 000); a third of (c) and (d) also carry inert look-alikes: decorators on `*` and on tags nobody carries, with @service/!tagged arguments; (c2) a seeded sample of the 5^9 graphs with a fifth kind (decorator whose argument is `!tagged t`, t requested by nothing else); (d) seeded sparse graphs on <=12 parameters and services with overlapping cycles, all edge kinds; a third of them also refer to services/parameters that are not declared and are built with both --ignore-missing-* flags. Each configuration runs through the real binary; the 'Circular dependencies' step must fail iff the reference relation has a cycle (Tarjan SCC), every reported line must be a closed walk of the relation, every element on a cycle must occur in a reported line. Accepted samples are compiled and executed: CircularDeps()==nil and every GetParam returns. distinct = distinct configuration; non-trivial = the relation has at least one edge"
 	c.Assumptions = []string{"reference relation engine/ref.BuildGraph (statement of C07)", "graphs whose largest strongly connected component exceeds 6 nodes are skipped (the statement's cost proviso) and counted"}
 	w := c.W
 	var jobs []*cfg.Config
@@ -271,6 +283,26 @@ func checkC07(c *Ctx) error {
 		}
 		jobs = append(jobs, conf)
 	}
+	// (c2) the same with a fifth kind, a decorator whose argument requests a tag (5^9 graphs: sampled)
+	{
+		r := rand.New(rand.NewSource(c.Seed * 5))
+		n5 := c.Pick(2500, 60000)
+		for k := 0; k < n5; k++ {
+			var cell [9]int
+			for x := range cell {
+				cell[x] = r.Intn(5)
+				if r.Intn(3) == 0 {
+					cell[x] = ckNone
+				}
+			}
+			conf := mixedGraphConfigN(3, func(i, j int) int { return cell[i*3+j] }, k%4 == 1)
+			if k%5 == 2 {
+				addInertParts(r, conf)
+			}
+			jobs = append(jobs, conf)
+		}
+		c.Set("five_kind_graphs_run", n5)
+	}
 	c.Set("mixed_kind_graphs_run", len(picks))
 	c.Set("mixed_kind_graph_space", total)
 	c.Set("mixed_kind_exhaustive", c.Thorough())
@@ -283,7 +315,7 @@ func checkC07(c *Ctx) error {
 		p := 0.05 + r.Float64()*0.15
 		conf := mixedGraphConfigN(n, func(i, j int) int {
 			if r.Float64() < p {
-				return 1 + r.Intn(3)
+				return 1 + r.Intn(4)
 			}
 			return ckNone
 		}, k%2 == 0)
